@@ -26,7 +26,9 @@ Open Scope Z_scope.
 
 (* ---------------------------------------------------------------- outcomes *)
 Inductive code := E1 | E2 | E3 | E4 | E5 | E6.
-Inductive outcome := Ok (out : string) | Err (c : code) (text : string) | Panic (site : string).
+(* named soutcome / SOk / SErr / SPanic (not outcome / Ok / Err / Panic) because the extraction is
+   flat and Model/ToCnf.v already owns those names *)
+Inductive soutcome := SOk (out : string) | SErr (c : code) (text : string) | SPanic (site : string).
 Inductive res (A : Type) := ROk (a : A) | RErr (c : code) (text : string) | RPanic (site : string).
 Arguments ROk {A} a. Arguments RErr {A} c text. Arguments RPanic {A} site.
 Inductive ares (A : Type) := AOk (a : A) | APanic (site : string).
@@ -162,29 +164,30 @@ Definition nom_err (k : nomkind) (input : string) : string :=
 (* the nom `alt` of get_numbers: a..b | a.. | a ; each alternative is a PREFIX parser, trailing
    garbage is ignored; an alternative whose map_res closure fails (i32 overflow) falls through to
    the next one; the error reported is the one of the last alternative *)
-Definition parse_range (boundary : Z) (tok : string) : list Z + string :=
-  let alt3 :=
-    match signed_number tok with
-    | LOk a _ => match parse_i32 a with Some x => inl [x] | None => inr (nom_err KMapRes tok) end
-    | LFail at_ => inr (nom_err KDigit at_)
-    end in
+Definition alt_single (tok : string) : list Z + string :=
   match signed_number tok with
-  | LFail _ => alt3
+  | LOk a _ => match parse_i32 a with Some x => inl [x] | None => inr (nom_err KMapRes tok) end
+  | LFail at_ => inr (nom_err KDigit at_)
+  end.
+Definition alt_open (boundary : Z) (a tok : string) : list Z + string :=
+  match parse_i32 a with
+  | Some x => inl (zrange x (as_i32 boundary))
+  | None => alt_single tok
+  end.
+Definition parse_range (boundary : Z) (tok : string) : list Z + string :=
+  match signed_number tok with
+  | LFail _ => alt_single tok
   | LOk a r1 =>
     match strip_dotdot r1 with
-    | None => alt3
+    | None => alt_single tok
     | Some r2 =>
-      let alt2 := match parse_i32 a with
-                  | Some x => inl (zrange x (as_i32 boundary))
-                  | None => alt3
-                  end in
       match signed_number r2 with
       | LOk b _ =>
         match parse_i32 a, parse_i32 b with
         | Some x, Some y => inl (zrange x y)
-        | _, _ => alt2
+        | _, _ => alt_open boundary a tok
         end
-      | LFail _ => alt2
+      | LFail _ => alt_open boundary a tok
       end
     end
   end.
@@ -713,15 +716,15 @@ Context {CC : Type} (X : extops CC).
 Definition keep (st : sstate CC) (s : scratch) : sstate CC :=
   {| dd := dd st; sc := s; cur := cur st; cache := cache st |}.
 
-Definition lib_answer (st : sstate CC) (r : ares (scratch * string)) : sstate CC * outcome :=
+Definition lib_answer (st : sstate CC) (r : ares (scratch * string)) : sstate CC * soutcome :=
   match r with
-  | APanic p => (st, Panic p)
-  | AOk (s', out) => (keep st s', Ok out)
+  | APanic p => (st, SPanic p)
+  | AOk (s', out) => (keep st s', SOk out)
   end.
 
 (* third component: the recorded choice stream fits the traversal (only `random` consumes it) *)
 Definition exec (ver : version) (dbg : bool) (rq : request) (chs : list choice) (st : sstate CC)
-  : sstate CC * outcome * bool :=
+  : sstate CC * soutcome * bool :=
   let d := dd st in
   let p := r_args rq in
   let cmd := r_cmd rq in
@@ -735,26 +738,26 @@ Definition exec (ver : version) (dbg : bool) (rq : request) (chs : list choice) 
                          else if (rc d <? 0) || (u64_max <? rc d) then None else Some (rc d)
                end in
     match lim with
-    | None => (st, Panic "rc().to_usize().expect", true)
+    | None => (st, SPanic "rc().to_usize().expect", true)
     | Some l =>
       match enumerate_chk ver dbg d (p_params p) l (cur st) (sc st) with
-      | EPanic site => (st, Panic site, true)
+      | EPanic site => (st, SPanic site, true)
       | EOk (s', c', Some cfgs) =>
-        ({| dd := d; sc := s'; cur := c'; cache := cache st |}, Ok (format_vec_vec cfgs), true)
+        ({| dd := d; sc := s'; cur := c'; cache := cache st |}, SOk (format_vec_vec cfgs), true)
       | EOk (s', c', None) =>
-        ({| dd := d; sc := s'; cur := c'; cache := cache st |}, Err E5 unsat_text, true)
+        ({| dd := d; sc := s'; cur := c'; cache := cache st |}, SErr E5 unsat_text, true)
       end
     end
   else if String.eqb cmd "random" then
     let l := match p_limit p with Some l => l | None => 1 end in
     let '(s', r, fits) := uniform_random_sampling d (p_params p) l chs (sc st) in
     match r with
-    | Some cfgs => (keep st s', Ok (format_vec_vec cfgs), fits)
-    | None => (keep st s', Err E5 unsat_text, fits)
+    | Some cfgs => (keep st s', SOk (format_vec_vec cfgs), fits)
+    | None => (keep st s', SErr E5 unsat_text, fits)
     end
   else if String.eqb cmd "atomic" || String.eqb cmd "atomic-cross" then
     if existsb (fun f => f <? 0) (p_values p) then
-      (st, Err E5 "E5 error: candidates must be positive", true)
+      (st, SErr E5 "E5 error: candidates must be positive", true)
     else
       let cands := match p_values p with [] => None | vs => Some vs end in
       (lib_answer st (x_atomic X d (String.eqb cmd "atomic-cross") cands (p_params p) (sc st)), true)
@@ -764,61 +767,61 @@ Definition exec (ver : version) (dbg : bool) (rq : request) (chs : list choice) 
     | [] => (lib_answer st (x_twise X d t [] (sc st)), true)
     | fs =>
       if (length fs =? nv d)%nat then (lib_answer st (x_twise X d t fs (sc st)), true)
-      else (st, Err E5 ("E5 error: Only " ++ nstr (length fs) ++
+      else (st, SErr E5 ("E5 error: Only " ++ nstr (length fs) ++
                         " fitness values were provided but d-DNNF contains " ++ nstr (nv d) ++
                         " variables."), true)
     end
   else if String.eqb cmd "clause-update" then
     match cache st with
-    | None => (st, Err E5 no_clauses, true)
+    | None => (st, SErr E5 no_clauses, true)
     | Some cc =>
       match x_update X d cc (p_add p) (p_rmv p) (r_total rq) (sc st) with
-      | APanic site => (st, Panic site, true)
+      | APanic site => (st, SPanic site, true)
       | AOk (d', s', cc', true) =>
-        ({| dd := d'; sc := s'; cur := cur st; cache := Some cc' |}, Ok EmptyString, true)
+        ({| dd := d'; sc := s'; cur := cur st; cache := Some cc' |}, SOk EmptyString, true)
       | AOk (d', s', cc', false) =>
         ({| dd := d'; sc := s'; cur := cur st; cache := Some cc' |},
-         Err E5 "E5 error: could not update cached state", true)
+         SErr E5 "E5 error: could not update cached state", true)
       end
     end
   else if String.eqb cmd "undo-update" then
     let fail := "E5 error: could not perform undo; there does not exist any cached state1"%string in
     match cache st with
-    | None => (st, Err E5 fail, true)
+    | None => (st, SErr E5 fail, true)
     | Some cc =>
       match x_undo X d cc (sc st) with
-      | APanic site => (st, Panic site, true)
+      | APanic site => (st, SPanic site, true)
       | AOk (d', s', cc', true) =>
-        ({| dd := d'; sc := s'; cur := cur st; cache := Some cc' |}, Ok EmptyString, true)
+        ({| dd := d'; sc := s'; cur := cur st; cache := Some cc' |}, SOk EmptyString, true)
       | AOk (d', s', cc', false) =>
-        ({| dd := d'; sc := s'; cur := cur st; cache := Some cc' |}, Err E5 fail, true)
+        ({| dd := d'; sc := s'; cur := cur st; cache := Some cc' |}, SErr E5 fail, true)
       end
     end
-  else if String.eqb cmd "exit" then (st, Ok "exit", true)
+  else if String.eqb cmd "exit" then (st, SOk "exit", true)
   else if String.eqb cmd "save-cnf" || String.eqb cmd "save-ddnnf" then
     let path := p_path p in
-    if sempty path then (st, Err E6 "E6 error: no file path was supplied", true)
+    if sempty path then (st, SErr E6 "E6 error: no file path was supplied", true)
     else if negb (match path with String c _ => is_slash c | EmptyString => false end) then
-      (st, Err E6 "E6 error: file path is not absolute, but has to be", true)
+      (st, SErr E6 "E6 error: file path is not absolute, but has to be", true)
     else if String.eqb cmd "save-ddnnf" then
       match x_save_ddnnf X d path with
-      | APanic site => (st, Panic site, true)
-      | AOk None => (st, Ok EmptyString, true)
+      | APanic site => (st, SPanic site, true)
+      | AOk None => (st, SOk EmptyString, true)
       | AOk (Some e) =>
-        (st, Err E6 ("E6 error: " ++ e ++ " while trying to write ddnnf to " ++ path), true)
+        (st, SErr E6 ("E6 error: " ++ e ++ " while trying to write ddnnf to " ++ path), true)
       end
     else
       match cache st with
-      | None => (st, Err E5 "E5 error: cannot save as CNF because clauses are not available", true)
+      | None => (st, SErr E5 "E5 error: cannot save as CNF because clauses are not available", true)
       | Some cc =>
         match x_save_cnf X cc (r_total rq) path with
-        | APanic site => (st, Panic site, true)
-        | AOk None => (st, Ok EmptyString, true)
+        | APanic site => (st, SPanic site, true)
+        | AOk None => (st, SOk EmptyString, true)
         | AOk (Some e) =>
-          (st, Err E6 ("E6 error: " ++ e ++ " while trying to write cnf to " ++ path), true)
+          (st, SErr E6 ("E6 error: " ++ e ++ " while trying to write cnf to " ++ path), true)
         end
       end
-  else (st, Err E2 ("E2 error: the operation " ++ quote cmd ++ " is not supported"), true).
+  else (st, SErr E2 ("E2 error: the operation " ++ quote cmd ++ " is not supported"), true).
 
 Definition parse_request (ver : version) (dbg : bool) (st : sstate CC) (line : string) : res request :=
   parse_line ver dbg (Z.of_nat (nv (dd st)))
@@ -827,22 +830,22 @@ Definition parse_request (ver : version) (dbg : bool) (st : sstate CC) (line : s
 (* handle_stream_msg = exec . parse_request: nothing is executed before the line is parsed
    completely, so a parse error leaves the state untouched by construction *)
 Definition handle_full (ver : version) (dbg : bool) (st : sstate CC) (line : string)
-           (chs : list choice) : sstate CC * outcome * bool :=
+           (chs : list choice) : sstate CC * soutcome * bool :=
   match parse_request ver dbg st line with
-  | RErr c t => (st, Err c t, true)
-  | RPanic p => (st, Panic p, true)
+  | RErr c t => (st, SErr c t, true)
+  | RPanic p => (st, SPanic p, true)
   | ROk rq => exec ver dbg rq chs st
   end.
 
 Definition handle_stream_msg (ver : version) (dbg : bool) (st : sstate CC) (line : string)
-           (chs : list choice) : sstate CC * outcome :=
+           (chs : list choice) : sstate CC * soutcome :=
   fst (handle_full ver dbg st line chs).
 
 End Exec.
 
 (* the text the Rust returns *)
-Definition outcome_text (o : outcome) : string :=
-  match o with Ok s => s | Err _ t => t | Panic p => ("PANIC " ++ p)%string end.
+Definition outcome_text (o : soutcome) : string :=
+  match o with SOk s => s | SErr _ t => t | SPanic p => ("PANIC " ++ p)%string end.
 
 (* instance without a clause cache (models loaded from nnf files); atomic / t-wise answers are
    supplied by the caller (replayed from the implementation, like the choice stream) *)
